@@ -247,6 +247,8 @@ func CopyFileContents(cfg *config.Configuration, src string, dst string) error {
 	if err != nil {
 		return err
 	}
+	tools.VerifPoint("copyfile.rename.pre")
+	defer tools.VerifPoint("copyfile.rename.post")
 	return os.Rename(tmp.Name(), dst)
 }
 
@@ -254,7 +256,9 @@ func LinkOrCopy(cfg *config.Configuration, src string, dst string) error {
 	if src == dst {
 		return nil
 	}
+	tools.VerifPoint("link.pre")
 	err := os.Link(src, dst)
+	tools.VerifPoint("link.post")
 	if err == nil {
 		return err
 	}
